@@ -86,17 +86,20 @@ def check(run):
         lres = json.load(open(outl))
     except Exception as ex:
         rc, lres = 1, [{"plan": None, "problem": "harness: %s" % ex, "windows": []}]
-    badl = [r for r in lres if r.get("problem") or any(w != ["connected", "disconnected"] for w in r.get("windows") or []) or len(r.get("windows") or []) != 2]
-    for r in badl[:1]:
-        if not str(r.get("problem")).startswith("harness"):
-            run.violation("late-listener", "after shells lived and died while no event listener was registered, a listener which registered did not get exactly one "
-                          "connected and one disconnected event for the next shell (or a shell in the series was not accepted / torn down)",
-                          {"stream": "listeners", "input": {"shells_without_listener_before_each_listening_window": r.get("plan")}, "detail": r})
-    run.oblige("event listeners come and go: %d plans (0 to 1500 shells in series with nobody listening, then a listener, a shell, the listener leaves, again) - every "
-               "shell is accepted and torn down with one 'gone' notice and each listener gets exactly [connected, disconnected]" % len(plans),
-               rc == 0 and not badl and len(lres) == len(plans), json.dumps(badl)[:1500])
-    run.stream("listeners", len(plans), len(plans), "real scheduler; series of shells ending by EOF / input cancel / output cancel with no listener, then a listener "
-               "registers for one shell and leaves; twice per plan", [{"plans": plans}])
+    if rc != 0 or len(lres) != len(plans) or any(str(r.get("problem", "")).startswith("harness") for r in lres):
+        run.oblige("listeners harness ran", False, json.dumps(lres)[:1500])
+    else:
+        evn = {"connected": "0%N", "disconnected": "1%N"}
+        def lterm(pl, r):
+            wins = "; ".join("[%s]" % "; ".join(evn.get(e, "9%N") for e in w) for w in r.get("windows") or [])
+            return "mkl [%s] [%s] %s" % ("; ".join("%d%%N" % n for n in pl), wins, "true" if r.get("problem") else "false")
+        vlib.judge_stream(run, "listeners", "From CRS Require Import Lib.Bytes Model.Events Judge.Common Judge.Listen.", "lcase", plans, lres, lterm,
+                          {1: "in a series of shells with event listeners coming and going a shell was not accepted, not torn down or not announced exactly once",
+                           2: "a listener which registered after shells had lived and died unheard did not get exactly one connected and one disconnected event "
+                              "for the next shell", 11: "Model/Events.plan_windows differs from what the listeners of the real Broker received"}, (0,),
+                          "event listeners come and go (real scheduler): per plan, twice: 0 to 1500 shells in series with nobody listening (ending by EOF / input "
+                          "cancel / output cancel), then a listener registers, one shell lives and dies, the listener leaves; each listener must have received "
+                          "exactly [connected, disconnected] = Model/Events.plan_windows", key_fn=lambda pl: json.dumps(pl))
     run.assumptions += ["'nothing keeps running' is observed as: no goroutine with a Broker frame after all readers returned EOF and all contexts were "
                         "cancelled, inside testing/synctest; the proof side covers the bookkeeping (slots, key, wait group)"]
     run.trusted += ["harness/overlay/iobroker", "props/brokerlib.py", "coq/Model/Broker.v tied by this correspondence"]
